@@ -185,6 +185,61 @@ harnesses! {
     fn c04_q_raw_copy_amino_o10_n2 [6] { raw_copy!(Amino, oracle::AMINO, 21, 10, 2) }
     fn c04_t_raw_copy_amino_o3_n2 [6] { raw_copy!(Amino, oracle::AMINO, 21, 3, 2) }
     fn c04_t_raw_copy_iupac_o15_n2 [6] { raw_copy!(Iupac, oracle::IUPAC, 32, 15, 2) }
+    // images of EDITED sequences (argument windows at offsets that are not word aligned)
+    fn c04_q_raw_after_prepend [5] {
+        let w = any_words::<2>();
+        let a = arr::<Dna, 64, 2>(w);
+        let mut s = owned_cap(&a, 40, 2, 2);
+        s.prepend(&a[3..6]);
+        let raw = s.into_raw();
+        let i = any_usize();
+        assume(i < 5);
+        let want = if i < 3 { sym(&w, 6, 2, i) } else { sym(&w, 80, 2, i - 3) };
+        assert!(s.len() == 5 && raw.len() >= 1, "C04.raw.len");
+        assert!(bits_at(raw, 2 * i, 2) as u8 == want, "C04.raw.layout_from_bit0_of_word0");
+        reach!("end");
+        core::mem::forget(s);
+    }
+    fn c04_q_raw_after_insert [5] {
+        let w = any_words::<2>();
+        let a = arr::<Dna, 64, 2>(w);
+        let mut s = owned_cap(&a, 40, 2, 2);
+        s.insert(1, &a[31..33]);
+        let raw = s.into_raw();
+        let i = any_usize();
+        assume(i < 4);
+        let want = if i < 1 { sym(&w, 80, 2, 0) } else if i < 3 { sym(&w, 62, 2, i - 1) } else { sym(&w, 80, 2, 1) };
+        assert!(s.len() == 4 && raw.len() >= 1, "C04.raw.len");
+        assert!(bits_at(raw, 2 * i, 2) as u8 == want, "C04.raw.layout_from_bit0_of_word0");
+        reach!("end");
+        core::mem::forget(s);
+    }
+    fn c04_q_raw_after_remove_and_append [5] {
+        let w = any_words::<2>();
+        let a = arr::<Dna, 64, 2>(w);
+        let mut s = owned_cap(&a, 40, 4, 6);
+        s.remove(0..2);
+        s.append(&a[5..7]);
+        let raw = s.into_raw();
+        let i = any_usize();
+        assume(i < 4);
+        let want = if i < 2 { sym(&w, 80, 2, i + 2) } else { sym(&w, 10, 2, i - 2) };
+        assert!(s.len() == 4 && raw.len() >= 1, "C04.raw.len");
+        assert!(bits_at(raw, 2 * i, 2) as u8 == want, "C04.raw.layout_from_bit0_of_word0");
+        reach!("end");
+        core::mem::forget(s);
+    }
+    fn c04_q_raw_after_rev [6] {
+        let w = any_words::<2>();
+        let a = arr::<Dna, 64, 2>(w);
+        let s: Seq<Dna> = a[31..34].to_rev();
+        let raw = s.into_raw();
+        let i = any_usize();
+        assume(i < 3);
+        assert!(bits_at(raw, 2 * i, 2) as u8 == sym(&w, 62, 2, 2 - i), "C04.raw.layout_from_bit0_of_word0");
+        reach!("end");
+        core::mem::forget(s);
+    }
     fn c04_q_from_raw_count_dna_w1 [4] { from_raw_count::<Dna, 1>(&oracle::DNA); }
     fn c04_q_from_raw_count_dna_w2 [4] { from_raw_count::<Dna, 2>(&oracle::DNA); }
     fn c04_q_from_raw_count_amino_w2 [4] { from_raw_count::<Amino, 2>(&oracle::AMINO); }
